@@ -14,7 +14,7 @@ RULE = ("X06 (extension; stated in spec/TimeFormat.tla + spec/KeySig.tla from SM
         "W division word: WriteTo puts q for MetricTicks 1..32767, 960 for 0, (256-fps)*256+sub for the four SMPTE rates; for any other TimeCode an error or a word that denotes it "
         "(never a nil error and a file of another time format); ReadFrom returns what the word denotes, all 2^16 words, all 256x256 TimeCode values; SMPTE constructors.  "
         "P String() shows resolution / rate and subframes.  C TempoChanges.TempoAt / TempoChangeAt = last change at or before the tick (120 before); SMF.TempoChanges() of a "
-        "file read back = its tempo events.  K every key constructor = FF 59 02 sf mi of the circle of fifths, GetMetaKey / GetMetaKeySig return tonic, count, mode, flat flag, "
+        "file read back = its tempo events.  K every key constructor = FF 59 02 sf mi of the circle of fifths, GetMetaKey / GetMetaKeySig return tonic, count, mode, flat flag (and TRUE with nil pointers), "
         "Key.String() names the key (up to six accidentals); MetaKey / GetMetaKeySig inverse for 0..7 accidentals; all 15 x 2 raw signatures.  "
         "Binding T: every record (arguments + everything returned) is judged by TLC with the operators TLC model-checked in MC_TimeFormat.  distinct = (ev, arguments)")
 
@@ -88,7 +88,13 @@ def describe(r, info):
             return "TempoChanges %s: TempoAt(%d) = %s, TempoChangeAt = #%s" % (list(zip(a[1:1 + 2 * k:2], a[2:2 + 2 * k:2])), q, r["outs"][2 * at - 2], r["outs"][2 * at - 1]) + tail
         if ev == "tchg":
             return "file (resolution %d) with tempo events (tick, bpm) %s: TempoChanges() after ReadFrom = %s" % (a[0], list(zip(a[2::2], a[3::2])), r["outs"]) + tail
-    except (IndexError, KeyError, TypeError):
+        if ev in ("key", "metakey", "keyraw"):
+            o = r["outs"]
+            call = ("smf.%s()" % r["name"] if ev == "key" else "smf.MetaKey(key %d, isMajor %s, num %d, isFlat %s)" % (a[0], bool(a[2]), a[1], bool(a[3])) if ev == "metakey"
+                    else "message")
+            return "%s = %s: GetMetaKey -> %s Key{Key: %d, Num: %d, IsMajor: %s, IsFlat: %s} String() %r, GetMetaKeySig -> %s key %d num %d isMajor %s isFlat %s; nil arguments -> %s %s" % (
+                call, " ".join("%02X" % b for b in r["msg"]), bool(o[0]), o[1], o[2], bool(o[3]), bool(o[4]), r["s"], bool(o[5]), o[6], o[7], bool(o[8]), bool(o[9]), bool(o[10]), bool(o[11])) + tail
+    except (IndexError, KeyError, TypeError, ValueError):
         pass
     return "%s %s %s -> msg %s outs %s s %r" % (ev, r["name"], a, r["msg"], r["outs"][:12], r["s"]) + tail
 
@@ -190,7 +196,7 @@ def run(ctx):
     vh = ctx.build("./cmd/vh_timefmt")
     d = ctx.sub("timefmt")
     out = os.path.join(d, "recs.ndjson")
-    ctx.run([vh, "gen", "-out", out, "-seed", str(ctx.seed), "-nrandom", str(400 if q else 12000)] + ([] if q else ["-full"]), timeout=1800)
+    ctx.run([vh, "gen", "-out", out, "-seed", str(ctx.seed), "-nrandom", str(400 if q else 8000)] + ([] if q else ["-full"]), timeout=1800)
     fails, n, seen_canary = [], 0, False
     per = {}
     sample_obs = []
